@@ -262,6 +262,11 @@ class ParticleReleaser(Iterator[pd.DataFrame]):
             df["lat"] = Y
             df.rename(columns={"lon": "X", "lat": "Y"}, inplace=True)
 
+        # A row with a blank position can not be released
+        if df[["X", "Y"]].isna().any().any():
+            logger.critical("Particle release: row(s) without position")
+            raise SystemExit(3)
+
         self._df = df
 
     def discretize(self) -> None:
